@@ -175,7 +175,7 @@ PROPS['C04'] = {
                   'types::SourceMap::get_token', 'types::SourceMap::tokens / TokenIter::next', 'types::SourceMap::get_token_count',
                   'builder::SourceMapBuilder::add_raw', 'builder::SourceMapBuilder::into_sourcemap'],
     'harnesses': [
-        H('c04_glb_n%d' % n, 'utils', 'quick' if n <= 6 else 'thorough', 600, 8,
+        H('c04_glb_n%d' % n, 'utils', 'quick' if (n <= 6 or n == 12) else 'thorough', 600, 8,
           'every sorted slice of exactly %d keys (u32,u32) x every query key' % n, nocover=(n == 0),
           allow_uncovered=['duplicate', 'after the last key'] if n == 1 else None)
         for n in (0, 1, 2, 3, 4, 5, 6, 7, 8, 12)
